@@ -17,7 +17,14 @@
 From HostdBase Require Import Base.
 
 Definition cid := N.        (* contract id *)
-Definition addr := nat.     (* address of a *lock object *)
+(* address of a *lock object.  Go only guarantees that a fresh object does not alias a live one;
+   the model allocates the object of contract i at (i, k) with k the least slot number above
+   every slot of i still referenced by the table or by a waiter (k = 0 unless a stale pointer
+   exists), overwriting garbage.  Only identity of addresses matters. *)
+Definition addr := (cid * nat)%type.
+Definition addr_eqb (a b : addr) : bool := ((fst a =? fst b)%N && Nat.eqb (snd a) (snd b))%bool.
+Definition addr_leb (a b : addr) : bool :=
+  ((fst a <? fst b)%N || ((fst a =? fst b)%N && Nat.leb (snd a) (snd b)))%bool.
 
 (* lock.go:13  type lock struct { ch chan struct{} (cap 1); n int } — ltok = len(ch) *)
 Record lockobj := { ln : Z; ltok : Z }.
@@ -46,8 +53,8 @@ Record thread := {
 
 Record state := {
   ths  : list thread;
-  tbl  : list (cid * addr);   (* lr.locks *)
-  heap : list lockobj }.
+  tbl  : list (cid * addr);       (* lr.locks *)
+  heap : list (addr * lockobj) }. (* the lock objects, live or garbage *)
 
 (** * Small library: update at an index, table operations *)
 Fixpoint upd {A} (l : list A) (n : nat) (x : A) : list A :=
@@ -67,18 +74,40 @@ Fixpoint tremove (i : cid) (l : list (cid * addr)) : list (cid * addr) :=
   | [] => []
   | (j, a) :: r => if (i =? j)%N then tremove i r else (j, a) :: tremove i r
   end.
-Definition tset (i : cid) (a : addr) (l : list (cid * addr)) := (i, a) :: tremove i l.
+(* both association lists are kept in key order so that equal maps are equal lists (the order of
+   a Go map is not observable) *)
+Fixpoint tinsert (i : cid) (a : addr) (l : list (cid * addr)) : list (cid * addr) :=
+  match l with
+  | [] => [(i, a)]
+  | (j, b) :: r => if (i <=? j)%N then (i, a) :: l else (j, b) :: tinsert i a r
+  end.
+Definition tset (i : cid) (a : addr) (l : list (cid * addr)) := tinsert i a (tremove i l).
+
+Fixpoint hget (a : addr) (h : list (addr * lockobj)) : option lockobj :=
+  match h with
+  | [] => None
+  | (b, o) :: r => if addr_eqb a b then Some o else hget a r
+  end.
+Fixpoint hset (a : addr) (o : lockobj) (h : list (addr * lockobj)) : list (addr * lockobj) :=
+  match h with
+  | [] => [(a, o)]
+  | (b, p) :: r =>
+      if addr_eqb a b then (a, o) :: r
+      else if addr_leb a b then (a, o) :: h
+      else (b, p) :: hset a o r
+  end.
 
 (** * Thread helpers *)
 Definition with_pc (th : thread) (p : pc) : thread :=
   {| tpc := p; tdone := tdone th; tbad := tbad th; tret := tret th |}.
+(* the flags only matter while the call is waiting; they are cleared when it ends *)
 Definition mk_idle (th : thread) (r : ret) : thread :=
-  {| tpc := Idle; tdone := tdone th; tbad := tbad th; tret := r |}.
+  {| tpc := Idle; tdone := false; tbad := false; tret := r |}.
 (* locks.Lock returned nil: a raw call / a Manager call on a good contract now holds the lock
    and returns; a Manager call on a bad contract goes to its error path *)
 Definition acquired (th : thread) (i : cid) : thread :=
-  if tbad th then with_pc th (Releasing i)
-  else {| tpc := Holding i; tdone := tdone th; tbad := tbad th; tret := RNil |}.
+  if tbad th then {| tpc := Releasing i; tdone := false; tbad := false; tret := tret th |}
+  else {| tpc := Holding i; tdone := false; tbad := false; tret := RNil |}.
 
 Definition is_blocked (p : pc) : bool := match p with Blocked _ _ => true | _ => false end.
 (* lr.mu is free unless some Unlock is stuck in its send while holding it *)
@@ -113,27 +142,37 @@ Definition internal (a : action) : bool :=
   | _ => false
   end.
 
+(* slot for a new lock object of contract i: above every slot of i still referenced *)
+Definition pc_slot (i : cid) (p : pc) : nat :=
+  match p with
+  | Waiting _ (j, k) | Cancelling _ (j, k) | Blocked _ (j, k) => if (i =? j)%N then S k else O
+  | _ => O
+  end.
+Definition fresh_slot (i : cid) (s : state) : nat :=
+  fold_left (fun m th => Nat.max m (pc_slot i (tpc th))) (ths s)
+    (fold_left (fun m e => let '(_, (j, k)) := e in if (i =? j)%N then Nat.max m (S k) else m) (tbl s) O).
+
 (* lock.go:33-46, the body of Unlock under lr.mu; [r] is what the enclosing call returns *)
 Definition unlock_cs (s : state) (t : nat) (th : thread) (i : cid) (r : ret) : option state :=
   match tlookup i (tbl s) with
   | None => Some (set_th s t (with_pc th Panicked))               (* l.37-39 *)
   | Some a =>
-      match nth_error (heap s) a with
+      match hget a (heap s) with
       | None => Some (set_th s t (with_pc th Panicked))           (* no such Go state: pointers are valid *)
       | Some o =>
           let n' := (ln o - 1)%Z in                                (* l.40 *)
           if (n' =? 0)%Z then                                      (* l.41-42 *)
             Some {| ths := upd (ths s) t (mk_idle th r);
                     tbl := tremove i (tbl s);
-                    heap := upd (heap s) a {| ln := n'; ltok := ltok o |} |}
+                    heap := hset a {| ln := n'; ltok := ltok o |} (heap s) |}
           else if (ltok o <? chan_cap)%Z then                      (* l.44, buffer has room *)
             Some {| ths := upd (ths s) t (mk_idle th r);
                     tbl := tbl s;
-                    heap := upd (heap s) a {| ln := n'; ltok := (ltok o + 1)%Z |} |}
+                    heap := hset a {| ln := n'; ltok := (ltok o + 1)%Z |} (heap s) |}
           else                                                     (* l.44, buffer full: blocks with lr.mu held *)
-            Some {| ths := upd (ths s) t {| tpc := Blocked i a; tdone := tdone th; tbad := tbad th; tret := r |};
+            Some {| ths := upd (ths s) t {| tpc := Blocked i a; tdone := false; tbad := false; tret := r |};
                     tbl := tbl s;
-                    heap := upd (heap s) a {| ln := n'; ltok := ltok o |} |}
+                    heap := hset a {| ln := n'; ltok := ltok o |} (heap s) |}
       end
   end.
 
@@ -148,16 +187,17 @@ Definition step (s : state) (a : action) : option state :=
                 let th0 := {| tpc := Idle; tdone := d; tbad := b; tret := RNone |} in
                 match tlookup i (tbl s) with
                 | None =>                                          (* l.53-63: fast path; ctx is not consulted *)
+                    let a := (i, fresh_slot i s) in
                     Some {| ths := upd (ths s) t (acquired th0 i);
-                            tbl := tset i (length (heap s)) (tbl s);
-                            heap := heap s ++ [{| ln := 1; ltok := 0 |}] |}
+                            tbl := tset i a (tbl s);
+                            heap := hset a {| ln := 1; ltok := 0 |} (heap s) |}
                 | Some a =>                                        (* l.65-66: enqueue *)
-                    match nth_error (heap s) a with
+                    match hget a (heap s) with
                     | None => Some (set_th s t (with_pc th0 Panicked))
                     | Some o =>
                         Some {| ths := upd (ths s) t (with_pc th0 (Waiting i a));
                                 tbl := tbl s;
-                                heap := upd (heap s) a {| ln := (ln o + 1)%Z; ltok := ltok o |} |}
+                                heap := hset a {| ln := (ln o + 1)%Z; ltok := ltok o |} (heap s) |}
                     end
                 end
               else None
@@ -177,7 +217,7 @@ Definition step (s : state) (a : action) : option state :=
       match nth_error (ths s) t with
       | Some th => match tpc th with
                    | Waiting _ _ => Some (set_th s t {| tpc := tpc th; tdone := true; tbad := tbad th; tret := tret th |})
-                   | _ => None
+                   | _ => Some s     (* the call already returned (or is past its select): no effect *)
                    end
       | None => None
       end
@@ -186,12 +226,12 @@ Definition step (s : state) (a : action) : option state :=
       | Some th =>
           match tpc th with
           | Waiting i a =>
-              match nth_error (heap s) a with
+              match hget a (heap s) with
               | Some o =>
                   if (0 <? ltok o)%Z then
                     Some {| ths := upd (ths s) t (acquired th i);
                             tbl := tbl s;
-                            heap := upd (heap s) a {| ln := ln o; ltok := (ltok o - 1)%Z |} |}
+                            heap := hset a {| ln := ln o; ltok := (ltok o - 1)%Z |} (heap s) |}
                   else None
               | None => None
               end
@@ -214,13 +254,13 @@ Definition step (s : state) (a : action) : option state :=
           match tpc th with
           | Cancelling i a =>
               if mutex_free s then
-                match nth_error (heap s) a with
+                match hget a (heap s) with
                 | None => Some (set_th s t (with_pc th Panicked))
                 | Some o =>
                     let n' := (ln o - 1)%Z in
                     Some {| ths := upd (ths s) t (mk_idle th RCtxErr);
                             tbl := if (n' =? 0)%Z then tremove i (tbl s) else tbl s;
-                            heap := upd (heap s) a {| ln := n'; ltok := ltok o |} |}
+                            heap := hset a {| ln := n'; ltok := ltok o |} (heap s) |}
                 end
               else None
           | _ => None
@@ -250,12 +290,12 @@ Definition step (s : state) (a : action) : option state :=
       | Some th =>
           match tpc th with
           | Blocked i a =>
-              match nth_error (heap s) a with
+              match hget a (heap s) with
               | Some o =>
                   if (ltok o <? chan_cap)%Z then
                     Some {| ths := upd (ths s) t (mk_idle th (tret th));
                             tbl := tbl s;
-                            heap := upd (heap s) a {| ln := ln o; ltok := (ltok o + 1)%Z |} |}
+                            heap := hset a {| ln := ln o; ltok := (ltok o + 1)%Z |} (heap s) |}
                   else None
               | None => None
               end
@@ -298,18 +338,21 @@ Fixpoint picks {A} (l : list A) : list (A * list A) :=
   | x :: r => (x, r) :: map (fun '(y, r') => (y, x :: r')) (picks r)
   end.
 
-Fixpoint explore (fuel : nat) (s : state) (pend : list action) : list state :=
-  match fuel with
-  | O => []
-  | S f =>
-      let ints := enabled_internal s in
-      match ints, pend with
-      | [], [] => [s]
-      | _, _ =>
-          flat_map (fun s' => explore f s' pend) ints ++
-          flat_map (fun '(a, rest) => match step s a with Some s' => explore f s' rest | None => [] end)
-                   (picks pend)
-      end
+(* breadth-first, level by level, merging equal nodes: a node is a state together with the
+   external actions not yet performed; a node without enabled internal step and without pending
+   action is terminal (quiescent) and contributes its state *)
+Definition node := (state * list action)%type.
+
+Definition expand_node (nd : node) : list node :=
+  let '(s, pend) := nd in
+  map (fun s' => (s', pend)) (enabled_internal s) ++
+  flat_map (fun '(a, rest) => match step s a with Some s' => [(s', rest)] | None => [] end)
+           (picks pend).
+
+Definition terminal (nd : node) : bool :=
+  match enabled_internal (fst nd), snd nd with
+  | [], [] => true
+  | _, _ => false
   end.
 
 (** * Observations *)
@@ -334,7 +377,7 @@ Fixpoint insert_row (r : cid * Z * Z) (l : list (cid * Z * Z)) : list (cid * Z *
 (* the lock table as the harness reads it under lr.mu: (id, n, len(ch)) sorted by id *)
 Definition table_of (s : state) : list (cid * Z * Z) :=
   fold_right (fun '(i, a) acc =>
-                match nth_error (heap s) a with
+                match hget a (heap s) with
                 | Some o => insert_row (i, ln o, ltok o) acc
                 | None => insert_row (i, (-1)%Z, (-1)%Z) acc
                 end) [] (tbl s).
@@ -359,7 +402,7 @@ Definition pc_eqb (p q : pc) : bool :=
   match p, q with
   | Idle, Idle | Panicked, Panicked => true
   | Waiting i a, Waiting j b | Cancelling i a, Cancelling j b | Blocked i a, Blocked j b =>
-      ((i =? j)%N && Nat.eqb a b)%bool
+      ((i =? j)%N && addr_eqb a b)%bool
   | Holding i, Holding j | Releasing i, Releasing j => (i =? j)%N
   | _, _ => false
   end.
@@ -372,14 +415,43 @@ Definition thread_eqb (a b : thread) : bool :=
   pc_eqb (tpc a) (tpc b) && Bool.eqb (tdone a) (tdone b) && Bool.eqb (tbad a) (tbad b) && ret_eqb (tret a) (tret b).
 Definition state_eqb (a b : state) : bool :=
   list_eqb thread_eqb (ths a) (ths b)
-  && list_eqb (fun x y => ((fst x =? fst y)%N && Nat.eqb (snd x) (snd y))%bool) (tbl a) (tbl b)
-  && list_eqb (fun x y => ((ln x =? ln y)%Z && (ltok x =? ltok y)%Z)%bool) (heap a) (heap b).
+  && list_eqb (fun x y => ((fst x =? fst y)%N && addr_eqb (snd x) (snd y))%bool) (tbl a) (tbl b)
+  && list_eqb (fun x y => (addr_eqb (fst x) (fst y) && (ln (snd x) =? ln (snd y))%Z && (ltok (snd x) =? ltok (snd y))%Z)%bool) (heap a) (heap b).
 
 Fixpoint dedup (l : list state) : list state :=
   match l with
   | [] => []
   | x :: r => if existsb (state_eqb x) r then dedup r else x :: dedup r
   end.
+
+Definition action_eqb (a b : action) : bool :=
+  match a, b with
+  | ALock t i d x, ALock u j e y => (Nat.eqb t u && (i =? j)%N && Bool.eqb d e && Bool.eqb x y)%bool
+  | ALockRefused t, ALockRefused u | ACtxDone t, ACtxDone u | AUnlock t, AUnlock u
+  | ARecv t, ARecv u | ACancelChosen t, ACancelChosen u | ACancelCommit t, ACancelCommit u
+  | AErrUnlock t, AErrUnlock u | ASendDone t, ASendDone u => Nat.eqb t u
+  | _, _ => false
+  end.
+Definition node_eqb (a b : node) : bool :=
+  state_eqb (fst a) (fst b) && list_eqb action_eqb (snd a) (snd b).
+
+Fixpoint dedupn (l : list node) : list node :=
+  match l with
+  | [] => []
+  | x :: r => if existsb (node_eqb x) r then dedupn r else x :: dedupn r
+  end.
+
+Fixpoint bfs (fuel : nat) (front : list node) : list state :=
+  match fuel with
+  | O => []
+  | S f =>
+      match front with
+      | [] => []
+      | _ => map fst (filter terminal front) ++ bfs f (dedupn (flat_map expand_node front))
+      end
+  end.
+
+Definition explore (fuel : nat) (s : state) (pend : list action) : list state := bfs fuel [(s, pend)].
 
 (** * Correspondence entry point (trace inclusion).
    A recorded case is a list of (operation, observation at quiescence).  The checker keeps the
